@@ -141,7 +141,8 @@ RunFnReturnEn(s, e) ==
        [] s.mode = "idle"  -> e = "none" /\ s.ctxDone
        [] s.mode = "timer" -> (e = "none" /\ s.ctxDone) \/ e = "erun"
 RunFnReturn(s, e) == [s EXCEPT !.mpc = "toStop", !.mfrom = "Running", !.merr = e,
-                               !.errs = IF e = "none" THEN @ ELSE Append(@, e)]
+                               !.errs = IF e = "none" THEN @ ELSE Append(@, e),
+                               !.iters = IF s.mode = "timer" /\ e = "erun" THEN @ + 1 ELSE @]   \* the failing iteration
 
 \* one iteration of a timer service that returns nil (an iteration error is RunFnReturn(s, "erun"))
 TickEn(s) == s.mode = "timer" /\ s.mpc = "inRun" /\ ~s.ctxDone /\ s.iters < 2
